@@ -620,6 +620,30 @@ func c17Chain(c *Ctx) {
 	}
 	r.Fn(relName(cp), relName(ca), relName(ne), relName(er))
 	copyFreshObligation(c, "CHAIN")
+	// the frame appended for an outer use() call site carries that call site's own position
+	nW := 0
+	if push := t.Method(pEngine, "searchPath", "Push"); push != nil {
+		for _, f := range t.PkgFuncs(pEngine) {
+			uses := false
+			var rec []*ssa.Call
+			allInstrs(f, func(in ssa.Instruction) {
+				if ci, ok := in.(*ssa.Call); ok {
+					if ci.Call.StaticCallee() == push {
+						uses = true
+					}
+					if ci.Call.StaticCallee() == f {
+						rec = append(rec, ci)
+					}
+				}
+			})
+			if uses && len(rec) > 0 {
+				nW++
+				walkerChainRules(c, f, rec, "", "CALLSITE-POS")
+			}
+		}
+	}
+	r.FloorN("use() walkers with a recursive descent", nW, 1)
+	r.Floor("CALLSITE-POS", 2)
 	// element construction in ChainAppend and NewErr
 	for _, fn := range []*ssa.Function{ca, ne} {
 		want := map[string]string{"File": "file", "Ln": "pos.Ln", "Col": "pos.Col", "Pos": "pos.Pos"}
